@@ -227,6 +227,9 @@ pub struct Scenario {
     pub max_read_chunk: usize,
     pub write_script: Vec<WriteResp>,
     pub tear_at: Option<u64>,
+    /// the client does not wait for Login Success: its Encryption Response and the (already encrypted) frames that
+    /// follow are made readable at the same instant, without the server running in between
+    pub glue: bool,
     pub note: String,
 }
 
@@ -498,6 +501,7 @@ pub fn run_scenario(sc: &Scenario, rng: &mut Rng) -> RunRecord {
                     push(&mut cs, &mut rec, &mut wire_in_len, b, None);
                     advance_until!(pipe.now_ms(), false);
                 }
+                Act::WaitServer { id } if sc.glue && *id == 2 => {}
                 Act::WaitServer { id } => {
                     let limit = pipe.now_ms() + 400_000;
                     let want = *id;
@@ -538,7 +542,7 @@ pub fn run_scenario(sc: &Scenario, rng: &mut Rng) -> RunRecord {
                         rec.enc_from_in_offset = Some(wire_in_len);
                         rec.enc_from_out_offset = Some(pipe.out_len());
                     }
-                    advance_until!(pipe.now_ms(), false);
+                    if !sc.glue { advance_until!(pipe.now_ms(), false); }
                 }
                 Act::SetKa(p) => { cs.ka = p.clone(); }
                 Act::Eof => {
